@@ -19,7 +19,13 @@ Wide(nt, tail, val(_)) == [i \in 1..nt |-> << <<i - 1 + (256 - nt)>> \o tail, va
 \* the explicitly stored bytes (chains use the OneTransNext form; with outputs OneTrans)
 CommonKey == [i \in 1..63 |-> CommonInv[i]]
 AllBytesKey == [i \in 1..256 |-> i - 1]
-Directed == {
+\* a value that needs exactly k bytes (low byte `low`, top byte `top`)
+ValK(k, low, top) == IF k = 1 THEN <<top>> ELSE <<low>> \o [i \in 1..(k - 2) |-> 0] \o <<top>>
+\* three transitions at the root whose outputs need exactly k bytes, other bytes after them
+PackK(k) == << <<<<97>>, ValK(k, 5, 1)>>, <<<<98>>, ValK(k, 1, 2)>>, <<<<99, 100>>, ValK(k, 3, 255)>> >>
+\* ... and a single transition (OneTrans form) with a k-byte output and a k-byte final output below it
+PackOneK(k) == << <<<<104>>, ValK(k, 9, 1)>>, <<<<104, 105>>, ValK(k, 9, 3)>> >>
+Directed == { PackK(k) : k \in 1..8 } \cup { PackOneK(k) : k \in 1..8 } \cup {
     << <<CommonKey, <<5>>>> >>,
     << <<AllBytesKey, UZero>> >>,
     << <<Rev(CommonKey), <<0, 1>>>>, <<CommonKey, <<5>>>>, <<CommonKey \o <<113, 72>>, <<1>>>> >>,
